@@ -286,4 +286,10 @@ def transformSeed {Seed F : Type} (useSeed : Bool) (seedOf : F → Seed) (filena
 /-- generated facts about the seed plumbing `(fact, holds)`: all must hold -/
 def plumbingOk (t : List (String × Bool)) : Bool := !t.isEmpty && t.all fun f => f.2
 
+/-- the body of a call is modelled as a program of its arguments and of the values it draws: it has no
+memory of earlier calls.  That is admissible only if `mask_func` and its helpers never write instance
+state (`self.<attr> = …`, `self.<attr>[…] = …`, `self.<attr>.append(…)`, …): the generated list of such
+writes must be empty -/
+def selfWritesOk (l : List (String × String × String)) : Bool := l.isEmpty
+
 end DirectVerif.Rng
